@@ -10,6 +10,7 @@
   instance.
 -/
 import SmsVerif.Model.Receipt
+import SmsVerif.Lemmas.Receipt
 import SmsVerif.Props.C01
 
 namespace SmsVerif.C18
@@ -93,6 +94,134 @@ theorem C18_smgp_id_partial (pre id rest : Bytes) (hid : id.length = 10)
   congr 1
   exact List.take_left' hid
 
+/-! ### well-formed receipts: the first-occurrence hypothesis discharged -/
+
+def str' (s : String) : Bytes := s.toList.map Char.toNat
+
+/-- the eight keys of an SMPP receipt (Appendix B of the SMPP 3.4 document) -/
+def smppKeys : List Bytes :=
+  [str' "id", str' "sub", str' "dlvrd", str' "submit date", str' "done date", str' "stat", str' "err", str' "text"]
+
+/-- the keys of an SMGP receipt, both spellings the extractor accepts -/
+def smgpKeys : List Bytes :=
+  [str' "id", str' "sub", str' "dlvrd", str' "submit date", str' "done date", str' "stat", str' "err", str' "text",
+   str' "Sub", str' "Dlvrd", str' "Submit_Date", str' "Done_Date", str' "Stat", str' "Err", str' "Text"]
+
+theorem smppKeysOK : KeysOK smppKeys := ⟨by decide, by decide, by decide, by decide⟩
+theorem smgpKeysOK : KeysOK smgpKeys := ⟨by decide, by decide, by decide, by decide⟩
+
+/-- in a receipt whose keys are distinct, the first occurrence of a field's key token is that field -/
+theorem first_occurrence (K : List Bytes) (hK : KeysOK K) (fs : List (Bytes × Bytes))
+    (hf : ∀ f ∈ fs, f.1 ∈ K ∧ NoToken K f.2) (hnd : (fs.map (·.1)).Nodup) (j : Nat) (hj : j < fs.length) :
+    indexOf (render fs) (fs[j].1 ++ [58]) = some (offsetOf fs j) := by
+  obtain ⟨pre, post, hsplit, hpre, _⟩ := render_split fs j hj
+  have hk := (hf fs[j] (List.getElem_mem hj)).1
+  apply indexOf_first
+  · rw [hsplit, ← hpre]
+    have : (pre ++ (fs[j].1 ++ [58] ++ fs[j].2) ++ post) = pre ++ ((fs[j].1 ++ [58]) ++ (fs[j].2 ++ post)) := by
+      simp [List.append_assoc]
+    rw [this]
+    exact (occursAt_append_right pre _ _ pre.length (Nat.le_refl _)).2 (by simp [OccursAt])
+  · rw [hsplit, ← hpre]; simp
+  · intro i hi hocc
+    obtain ⟨j', hj', hkey, hoff⟩ := occ_is_field K hK fs hf fs[j].1 hk i hocc
+    -- distinct keys: j' = j
+    have : j' = j := by
+      have h1 : (fs.map (·.1))[j']? = some fs[j].1 := by simpa using hkey
+      have h2 : (fs.map (·.1))[j]? = some fs[j].1 := by simp [hj]
+      have hj1 : j' < (fs.map (·.1)).length := by simpa using hj'
+      have hj2 : j < (fs.map (·.1)).length := by simpa using hj
+      rw [List.getElem?_eq_getElem hj1] at h1
+      rw [List.getElem?_eq_getElem hj2] at h2
+      exact (List.getElem_inj (h₀ := hj1) (h₁ := hj2) hnd).1 (by rw [Option.some.inj h1, Option.some.inj h2])
+    subst this
+    omega
+
+theorem drop_field (fs : List (Bytes × Bytes)) (j : Nat) (hj : j < fs.length) :
+    ∃ post, (render fs).drop (offsetOf fs j + fs[j].1.length + 1) = fs[j].2 ++ post ∧
+      (post = [] ∨ post.head? = some 32) ∧ offsetOf fs j + fs[j].1.length + 1 + fs[j].2.length ≤ (render fs).length := by
+  obtain ⟨pre, post, hsplit, hpre, hpost⟩ := render_split fs j hj
+  refine ⟨post, ?_, hpost, ?_⟩
+  · rw [hsplit, ← hpre]
+    have : pre ++ (fs[j].1 ++ [58] ++ fs[j].2) ++ post = (pre ++ fs[j].1 ++ [58]) ++ (fs[j].2 ++ post) := by
+      simp [List.append_assoc]
+    rw [this]
+    exact List.drop_left' (by simp; omega)
+  · rw [hsplit, ← hpre]; simp; omega
+
+/-- **C18_smpp_receipt** (full strength): for every receipt made of distinct standard keys in any
+    order, any subset, with space-free values that contain no key token, the extractor returns
+    exactly each field's value, and the empty string for every absent key -/
+theorem C18_smpp_receipt (fs : List (Bytes × Bytes))
+    (hf : ∀ f ∈ fs, f.1 ∈ smppKeys ∧ TokenFree smppKeys f.2) (hnd : (fs.map (·.1)).Nodup) :
+    (∀ j (hj : j < fs.length), findSmpp (render fs) fs[j].1 = fs[j].2) ∧
+    (∀ k ∈ smppKeys, k ∉ fs.map (·.1) → findSmpp (render fs) k = []) := by
+  have hf' : ∀ f ∈ fs, f.1 ∈ smppKeys ∧ NoToken smppKeys f.2 := fun f hm => ⟨(hf f hm).1, (hf f hm).2.2⟩
+  constructor
+  · intro j hj
+    unfold findSmpp
+    rw [first_occurrence smppKeys smppKeysOK fs hf' hnd j hj]
+    obtain ⟨post, hd, hpost, _⟩ := drop_field fs j hj
+    simp only [hd]
+    exact untilSpace_append _ post (fun c hc => by
+      have := (hf fs[j] (List.getElem_mem hj)).2.1
+      intro e; subst e; exact this hc) hpost
+  · intro k hk habs
+    unfold findSmpp
+    rw [indexOf_none]
+    intro i _ hocc
+    obtain ⟨j', hj', hkey, _⟩ := occ_is_field smppKeys smppKeysOK fs hf' k hk i hocc
+    apply habs
+    have : (fs.map (·.1))[j']? = some k := by simpa using hkey
+    exact List.mem_of_getElem? this
+
+/-- **C18_smgp_receipt** (full strength): either spelling of a key, value cut to the field width;
+    `id` is the hex form of the ten octets after its token, whatever they are -/
+theorem C18_smgp_receipt (fs : List (Bytes × Bytes))
+    (hf : ∀ f ∈ fs, f.1 ∈ smgpKeys ∧ NoToken smgpKeys f.2) (hnd : (fs.map (·.1)).Nodup)
+    (j : Nat) (hj : j < fs.length) (hsp : 32 ∉ fs[j].2) (primary backup : Bytes) (w : Nat)
+    (hp : primary ∈ smgpKeys)
+    (huse : fs[j].1 = primary ∨ (fs[j].1 = backup ∧ backup ≠ [] ∧ primary ∉ fs.map (·.1))) :
+    findSmgp (render fs) primary backup w = truncate w fs[j].2 := by
+  obtain ⟨post, hd, hpost, _⟩ := drop_field fs j hj
+  have hval : untilSpace (fs[j].2 ++ post) = fs[j].2 :=
+    untilSpace_append _ post (fun c hc => by intro e; subst e; exact hsp hc) hpost
+  unfold findSmgp
+  rcases huse with h1 | ⟨h1, hne, habs⟩
+  · rw [← h1, first_occurrence smgpKeys smgpKeysOK fs hf hnd j hj]
+    simp only [hd, hval]
+  · have hnone : indexOf (render fs) (primary ++ [58]) = none := by
+      apply indexOf_none
+      intro i _ hocc
+      obtain ⟨j', hj', hkey, _⟩ := occ_is_field smgpKeys smgpKeysOK fs hf primary hp i hocc
+      apply habs
+      have : (fs.map (·.1))[j']? = some primary := by simpa using hkey
+      exact List.mem_of_getElem? this
+    rw [hnone]
+    have hbe : backup.isEmpty = false := by cases backup <;> simp_all
+    simp only [hbe, Bool.false_eq_true, if_false]
+    rw [← h1, first_occurrence smgpKeys smgpKeysOK fs hf hnd j hj]
+    simp only [hd, hval]
+
+/-- SMGP `id`: the ten octets after the token, as hex, in any position of a well-formed receipt -/
+theorem C18_smgp_id (fs : List (Bytes × Bytes))
+    (hf : ∀ f ∈ fs, f.1 ∈ smgpKeys ∧ NoToken smgpKeys f.2) (hnd : (fs.map (·.1)).Nodup)
+    (j : Nat) (hj : j < fs.length) (hid : fs[j].1 = str' "id") (hlen : fs[j].2.length = 10) :
+    findSmgpId (render fs) = hexEncode fs[j].2 := by
+  obtain ⟨post, hd, _, hbound⟩ := drop_field fs j hj
+  have hfirst := first_occurrence smgpKeys smgpKeysOK fs hf hnd j hj
+  rw [hid] at hfirst hd hbound
+  unfold findSmgpId
+  have hstr : str' "id" ++ [58] = [105, 100, 58] := by decide
+  rw [hstr] at hfirst
+  rw [hfirst]
+  have hl : (str' "id").length = 2 := by decide
+  rw [hl] at hd hbound
+  dsimp only
+  rw [if_pos (by omega), show offsetOf fs j + 3 = offsetOf fs j + 2 + 1 by omega, hd]
+  congr 1
+  exact List.take_left' hlen
+
 /-- the CMPP binary status-report body round-trips (instance of C01) -/
 theorem C18_cmpp_report_roundtrip : C01.RoundTrips Gen.cmpp_SubPduDeliveryContent :=
   C01.C01_roundtrip _ (by simp [Gen.allPdus]) (by decide)
@@ -112,4 +241,7 @@ open SmsVerif.C18
 #print axioms C18_truncate_spec
 #print axioms C18_smgp_id_partial
 #print axioms C18_cmpp_report_roundtrip
+#print axioms C18_smpp_receipt
+#print axioms C18_smgp_receipt
+#print axioms C18_smgp_id
 end
